@@ -40,9 +40,8 @@ func checkEntity(tag string, h http.Handler, path string, body []byte, hdrs map[
 }
 
 // c01Scenario: upload by PUT / copy / browser-form POST, then read back.
-func c01Scenario(h http.Handler, integrity bool) {
-	rc := Do(h, Req{Method: "PUT", Path: "/bkt"})
-	vsym.Assert(rc.Code() == 200, "C01/create-bucket")
+func c01Scenario(h http.Handler, kind int, integrity bool) {
+	mkBucket(h, kind, "C01")
 
 	n := vsym.Choice("len", vsym.Param("maxbody", 3)+1)
 	body := vsym.Bytes("body", n)
@@ -97,5 +96,14 @@ func c01Scenario(h http.Handler, integrity bool) {
 func VH_C01_mem() {
 	integrity := vsym.Choice("integrity", 2) == 1
 	h, _ := newMemServer(gofakes3.WithIntegrityCheck(integrity))
-	c01Scenario(h, integrity)
+	c01Scenario(h, kindMem, integrity)
+}
+
+// VH_C01: same scenario on the backend tier selected by parameter "backend"
+// (1 bolt on the bbolt model, 2 multi-bucket fs, 3 single-bucket fs on MemMapFs).
+func VH_C01() {
+	integrity := vsym.Choice("integrity", 2) == 1
+	kind := backendKind()
+	h, _ := newServerKind(kind, gofakes3.WithIntegrityCheck(integrity))
+	c01Scenario(h, kind, integrity)
 }
